@@ -178,6 +178,10 @@ pub enum CfgChange {
     Channel(bool),
     /// batch period (false) or unbonding period (true) near the top of u64 (C16)
     PeriodHuge(u8, bool),
+    /// channel id spelled with k leading zeros (accepted by validation; a different string than the real channel)
+    ChannelSpelling(u8),
+    /// protocol-chain prefix of a selected length (0 = restore the chain's own; 1..=5 => 2, 10, 44, 83, 84 characters)
+    ProtocolPrefix(u8),
 }
 
 #[derive(Clone, Debug, PartialEq, Serialize, Deserialize)]
@@ -523,13 +527,13 @@ pub fn op_strategy(p: &Profile) -> BoxedStrategy<Op> {
         2 => (0u32..4000).prop_map(CfgChange::BatchPeriod),
         2 => (0u32..4000).prop_map(CfgChange::Unbonding),
         1 => Just(CfgChange::Identity),
-        3 => prop_oneof![(0u8..6).prop_map(CfgChange::Staker), (0u8..6).prop_map(CfgChange::Collector), any::<bool>().prop_map(CfgChange::Channel)],
+        3 => prop_oneof![3 => (0u8..6).prop_map(CfgChange::Staker), 3 => (0u8..6).prop_map(CfgChange::Collector), 3 => any::<bool>().prop_map(CfgChange::Channel), 2 => (1u8..4).prop_map(CfgChange::ChannelSpelling), 3 => (0u8..6).prop_map(CfgChange::ProtocolPrefix)],
     ];
     let ident = p.identity_changes;
     let extreme = p.extreme_periods;
     let change = prop_oneof![20 => change, 1 => (0u8..4, any::<bool>()).prop_map(move |(k, w)| if extreme { CfgChange::PeriodHuge(k, w) } else { CfgChange::Identity })];
     let change = change.prop_map(move |c| match c {
-        CfgChange::Staker(_) | CfgChange::Collector(_) | CfgChange::Channel(_) if !ident => CfgChange::Identity,
+        CfgChange::Staker(_) | CfgChange::Collector(_) | CfgChange::Channel(_) | CfgChange::ChannelSpelling(_) | CfgChange::ProtocolPrefix(_) if !ident => CfgChange::Identity,
         c => c,
     });
     let config = (privileged(p), change).prop_map(|(user, change)| Op::UpdateConfig { user, change });
